@@ -31,6 +31,8 @@ type VerifSession struct {
 	ns  *Namespace
 	mu  sync.Mutex
 	log []string
+	// node class and text of every statement a backend connection executed
+	execLog [][2]string
 }
 
 type verifPool struct {
@@ -46,7 +48,7 @@ func (p *verifPool) Get(ctx context.Context) (backend.PooledConnect, error) {
 	p.vs.mu.Lock()
 	p.vs.log = append(p.vs.log, p.class)
 	p.vs.mu.Unlock()
-	return &verifConn{class: p.class}, nil
+	return &verifConn{class: p.class, vs: p.vs}, nil
 }
 func (p *verifPool) GetCheck(ctx context.Context) (backend.PooledConnect, error) { return p.Get(ctx) }
 func (p *verifPool) Put(pc backend.PooledConnect)                                {}
@@ -65,7 +67,10 @@ func (p *verifPool) IdleClosed() int64                                          
 func (p *verifPool) SetLastChecked()                                             {}
 func (p *verifPool) GetLastChecked() int64                                       { return time.Now().Unix() }
 
-type verifConn struct{ class string }
+type verifConn struct {
+	class string
+	vs    *VerifSession
+}
 
 func (c *verifConn) Recycle()         {}
 func (c *verifConn) Reconnect() error { return nil }
@@ -75,10 +80,15 @@ func (c *verifConn) UseDB(db string) error {
 	return nil
 }
 func (c *verifConn) Execute(sql string, maxRows int) (*mysql.Result, error) {
+	if c.vs != nil {
+		c.vs.mu.Lock()
+		c.vs.execLog = append(c.vs.execLog, [2]string{c.class, sql})
+		c.vs.mu.Unlock()
+	}
 	return &mysql.Result{}, nil
 }
 func (c *verifConn) ExecuteWithTimeout(sql string, maxRows int, timeout time.Duration) (*mysql.Result, error) {
-	return &mysql.Result{}, nil
+	return c.Execute(sql, maxRows)
 }
 func (c *verifConn) SetAutoCommit(v uint8) error                 { return nil }
 func (c *verifConn) Begin() error                                { return nil }
@@ -205,6 +215,7 @@ func (vs *VerifSession) ResetConns() {
 	vs.se.ksConns = map[string]backend.PooledConnect{}
 	vs.mu.Lock()
 	vs.log = nil
+	vs.execLog = nil
 	vs.mu.Unlock()
 }
 
